@@ -23,7 +23,7 @@ func c07Codec(run *Run, cd *codecDef) {
 		for _, c := range chunks {
 			n += len(c)
 		}
-		if !run.Thorough() && (perStream >= 7 || (n > 20000 && len(chunks) > 1)) {
+		if !run.Thorough() && (perStream >= 5 || (n > 3000 && perStream >= 2) || (n > 20000 && len(chunks) > 1)) {
 			return
 		}
 		if run.Thorough() && (perStream >= 25 || (n > 20000 && perStream >= 3)) {
@@ -39,7 +39,7 @@ func c07Codec(run *Run, cd *codecDef) {
 			shBytes = 0
 		}
 	}
-	nstreams := run.N(9, 60)
+	nstreams := run.N(7, 60)
 	for i := 0; i < nstreams; i++ {
 		nfr := 1 + r.Intn(4)
 		var stream []byte
@@ -138,10 +138,11 @@ func c07Codec(run *Run, cd *codecDef) {
 
 func c07(args []string) int {
 	run := NewRun("C07", args)
-	run.Sum.Rule = "per codec: streams of 1-4 structured valid frames (generator of C08; every third stream may hold a 64KiB+ frame; every fifth ends in an incomplete frame) cut at EVERY single position (sampled above 600 bytes), +-4 around every frame boundary, every PAIR of positions (streams <= 90 bytes), into 1-byte reads, and at random; each segmentation is fed read by read into one accumulating IoBuffer with the Dispatch loop around the REAL Decode. Non-trivial = more than one chunk; distinct by (codec, stream, cut set). matchers: the seven real protocol matchers on every prefix (0..40 bytes and the whole) of generated frames of every codec, HTTP/1 request lines, the HTTP/2 preface, a crafted bolt frame carrying the dubbo-thrift magic at offset 4, and random bytes; the real SelectStreamFactoryProtocol is called 400 times when two matchers accept."
+	run.Sum.Rule = "per codec: streams of 1-4 structured valid frames (generator of C08; every third stream may hold a 64KiB+ frame; every fifth ends in an incomplete frame) cut at EVERY single position (sampled above 600 bytes), +-4 around every frame boundary, every PAIR of positions (streams <= 90 bytes), into 1-byte reads, and at random; each segmentation is fed read by read into one accumulating IoBuffer with the Dispatch loop around the REAL Decode. Non-trivial = more than one chunk; distinct by (codec, stream, cut set). matchers: the seven real protocol matchers on every prefix (0..40 bytes and the whole) of generated frames of every codec, HTTP/1 request lines, the HTTP/2 preface, a crafted bolt frame carrying the dubbo-thrift magic at offset 4, and random bytes; the real SelectStreamFactoryProtocol is called 400 times when two matchers accept. selection: the REAL SelectStreamFactoryProtocol (all seven registered factories, Go map order) on EVERY prefix of valid first frames of every protocol (tars packages of 30..300 bytes included): the verdict must be the one-read verdict or EAGAIN."
 	for _, cd := range codecDefs() {
 		c07Codec(run, cd)
 	}
 	c07Matchers(run)
+	c07Select(run)
 	return run.Finish()
 }
